@@ -187,6 +187,10 @@ Fixpoint lstrip (s : str) : str :=
   end.
 Definition strip (s : str) : str := rev (lstrip (rev (lstrip s))).
 
+(* `if value.startswith(" "): value = value[1:]` — exactly one leading U+0020 is not part of the value
+   (since the fix of F18b; before it the code was value.lstrip()) *)
+Definition strip1 (s : str) : str := match s with 32 :: r => r | _ => s end.
+
 (* line.split(":", 1) when ":" in line *)
 Fixpoint split_colon (s : str) : option (str * str) :=
   match s with
@@ -225,7 +229,7 @@ Section Oracles.
         else match split_colon line with
              | None => acc                                        (* no ":" in line: ignored *)
              | Some (f, v0) =>
-                 let v := lstrip v0 in
+                 let v := strip1 v0 in
                  if str_eqb f f_data then (d ++ [v], e, i, r)
                  else if str_eqb f f_event then (d, Some v, i, r)
                  else if str_eqb f f_id then (d, e, Some v, r)
@@ -354,13 +358,9 @@ Definition exotic_nl (c : N) : bool := is_nl c && negb ((c =? 10) || (c =? 13)).
 Definition guard_F18a (bs : list block) : bool :=
   forallb (forallb (fun it => forallb (fun c => negb (exotic_nl c)) (item_text it))) bs.
 
-(* F18b: a field value does not start with white space (lstrip() removes all of it, the SSE format
-   removes exactly the one space the sender wrote) *)
-Definition no_lead_ws (s : str) : bool := match s with [] => true | c :: _ => negb (is_ws c) end.
-Definition guard_F18b (bs : list block) : bool :=
-  forallb (forallb (fun it => match it with IComment _ => true | _ => no_lead_ws (item_text it) end)) bs.
-
-Definition guard (bs : list block) : bool := guard_dom bs && guard_F18a bs && guard_F18b bs.
+(* (F18b, fixed: field values may start with any white space; exactly the one space the sender wrote after the
+   colon is removed, so there is no guard conjunct for it any more.) *)
+Definition guard (bs : list block) : bool := guard_dom bs && guard_F18a bs.
 
 (* NDJSON sender: one record per line *)
 Definition guard_nd_F18a (ls : list str) : bool := forallb (forallb (fun c => negb (exotic_nl c))) ls.
